@@ -74,6 +74,8 @@ class Scenario:
         self.nodes = [self.n1, self.n2, self.n3]
         self.keys = {}           # (tenant, dataId) -> last written content | None
         self.counter = 0
+        self.frozen = set()
+        self.flipped = set()     # keys that were re-published with unchanged content (another type, or a change and the change back)
         self.lock = threading.Lock()
         self.stop_writer = threading.Event()
         self.log_off = 0
@@ -112,15 +114,23 @@ class Scenario:
             self.tokens[key] = tok
         return self.tokens[key]
 
-    def write_one(self, nd, rnd):
-        """one raft entry through `nd`: publish (new key / update) or remove"""
+    def write_one(self, nd, rnd, forced=None):
+        """one raft entry through `nd`: publish (new key / update) or remove; forced = (key, op)"""
         with self.lock:
             self.counter += 1
             c = self.counter
             x = rnd.random()
-            existing = [k for k, v in self.keys.items() if v is not None]
-            if x < 0.1 and len(existing) > 5:
+            existing = [k for k, v in self.keys.items() if v is not None and k not in self.frozen]
+            if forced is not None:
+                key, op = forced
+            elif x < 0.1 and len(existing) > 5:
                 key, op = rnd.choice(existing), "rm"
+            elif x < 0.16 and existing:
+                # the same content once more under another type (md5 unchanged, served type changes)
+                key, op = rnd.choice(existing), "retype"
+            elif x < 0.21 and existing:
+                # a change and the change back: content as before, two more history entries
+                key, op = rnd.choice(existing), "flipback"
             elif x < 0.45 and existing:
                 key, op = rnd.choice(existing), "pub"
             else:
@@ -131,6 +141,18 @@ class Scenario:
                 r = nd.delete("/nacos/v1/cs/configs", params={"dataId": data_id, "group": GROUP, "tenant": tenant}, timeout=10)
                 ok = r.status == 200
                 val = None
+            elif op in ("retype", "flipback"):
+                with self.lock:
+                    val = self.keys.get(key)
+                    self.flipped.add(key)
+                ok = True
+                steps = [val] if op == "retype" else ["%s-f%d" % (self.name, c), val]
+                for j, content in enumerate(steps):
+                    form = {"dataId": data_id, "group": GROUP, "tenant": tenant, "content": content, "type": [t for t in TYPES if t][(c + j) % 4]}
+                    r = nd.post("/nacos/v1/cs/configs", form=form, timeout=10)
+                    ok = ok and r.status == 200
+                if not ok:
+                    val = None if val is None else val
             else:
                 val = "%s-v%d" % (self.name, c)
                 form = {"dataId": data_id, "group": GROUP, "tenant": tenant, "content": val}
@@ -220,6 +242,18 @@ class Scenario:
             j = r.json() if r.status == 200 else None
             lst = (j or {}).get("data") if isinstance(j, dict) else None
             v["membership"]["console-node-list"] = sorted([[x.get("nodeId"), x.get("addr"), x.get("raftLeader")] for x in lst]) if isinstance(lst, list) else "<%s>" % r.status
+        # change history of up to 12 keys that were re-typed / changed and changed back (ids and contents, newest first)
+        v["config-history"] = {}
+        if tok:
+            with self.lock:
+                fl = sorted(self.flipped)[:12]
+            for tenant, data_id in fl:
+                if v["configs"].get("%s|%s" % (tenant, data_id), [None])[0] != 200:
+                    continue
+                r = nd.console("GET", "/rnacos/api/console/config/history", tok, params={"dataId": data_id, "group": GROUP, "tenant": tenant, "pageNo": 1, "pageSize": 1000}, timeout=5)
+                j = r.json() if r.status == 200 else None
+                lst = j.get("list") if isinstance(j, dict) else None
+                v["config-history"]["%s|%s" % (tenant, data_id)] = [[x.get("id"), x.get("content")] for x in lst] if isinstance(lst, list) else "<%s>" % r.status
         m = nd.metrics() or {}
         v["membership"]["raft-members"] = sorted((m.get("membership_config") or {}).get("members") or [])
         v["membership"]["raft-leader"] = m.get("current_leader")
@@ -231,6 +265,31 @@ class Scenario:
         out = {}
         miss = [k for k, x in lv["configs"].items() if x[0] == 200 and fv["configs"].get(k, [None])[0] != 200]
         other = [k for k, x in lv["configs"].items() if x != fv["configs"].get(k) and k not in miss]
+        # same content and md5 on both nodes, another type: its own data class (the content classes keep their signatures)
+        typed = [k for k in other if lv["configs"][k][0] == 200 and fv["configs"].get(k, [None])[0] == 200 and lv["configs"][k][1:3] == fv["configs"][k][1:3]]
+        other = [k for k in other if k not in typed]
+        if typed:
+            out["config-type"] = ("differs", {"different": [[k, lv["configs"][k], fv["configs"].get(k)] for k in typed[:4]], "n_different": len(typed)})
+        hd = [k for k, h in (lv.get("config-history") or {}).items() if k in (fv.get("config-history") or {}) and h != fv["config-history"][k]]
+        # entries applied twice (the same id more than once on the follower, nothing missing) are the known snapshot-cut defect:
+        # the leader's snapshot holds effects of entries behind its header index, the follower applies those entries again
+        def dup_only(k):
+            lh, fh = lv["config-history"][k], fv["config-history"][k]
+            if not isinstance(lh, list) or not isinstance(fh, list):
+                return False
+            ids = [x[0] for x in fh]
+            seen, uniq = set(), []
+            for x in fh:
+                if x[0] not in seen:
+                    seen.add(x[0])
+                    uniq.append(x)
+            return len(ids) != len(set(ids)) and sorted(map(tuple, uniq)) == sorted(map(tuple, lh))
+        twice = [k for k in hd if dup_only(k)]
+        hd = [k for k in hd if k not in twice]
+        if twice:
+            out["config-history-entries-applied-twice"] = ("differs", {"different": [[k, lv["config-history"][k][:5], fv["config-history"][k][:7]] for k in twice[:3]], "n_different": len(twice)})
+        if hd:
+            out["config-history"] = ("differs", {"different": [[k, lv["config-history"][k][:4], fv["config-history"][k][:4], len(lv["config-history"][k]), len(fv["config-history"][k])] for k in hd[:3]], "n_different": len(hd)})
         if miss or other:
             out["configs"] = ("missing" if miss else "differs", {"missing_on_follower": miss[:6], "n_missing": len(miss), "different": [[k, lv["configs"][k], fv["configs"].get(k)] for k in other[:4]],
                                                                  "n_different": len(other), "keys_compared": len(lv["configs"])})
@@ -326,6 +385,15 @@ class Scenario:
                     time.sleep(0.2)
                 self.step("follower-log-before-stop", metrics=n3.metrics())
                 n3.kill()
+                # what the absent member holds is published again with unchanged content: under another type, or changed and changed
+                # back - the snapshot it will receive carries the same md5 it already has, and another type / a longer history
+                with self.lock:
+                    held = sorted(k for k, v in self.keys.items() if v is not None)
+                rnd.shuffle(held)
+                for i, k in enumerate(held[:5]):
+                    self.frozen.add(k)           # nothing else is written to these keys
+                    self.write_one(leader, rnd, forced=(k, "retype" if i % 2 == 0 else "flipback"))
+                self.step("held-keys-republished-with-unchanged-content", keys=["%s|%s" % k for k in held[:5]])
             base = (leader.metrics() or {}).get("last_log_index", 0)
             end = self.write_until(leader, base + self.mult * self.n, rnd)
             comp = self.compactions(leader)
@@ -414,7 +482,7 @@ class Scenario:
             # entries that CHANGE what the installed snapshot contains: the oldest keys are removed / rewritten after the install, so the
             # follower's next start-up has to replay "snapshot, then these entries"
             with self.lock:
-                oldest = [k for k, v in self.keys.items() if v is not None][:5]
+                oldest = [k for k, v in self.keys.items() if v is not None and k not in self.frozen][:5]
             for j, key in enumerate(oldest):
                 tenant, data_id = key
                 try:
